@@ -614,6 +614,7 @@ func genProgramPlan(t *rapid.T, sk *skeleton, idx int) *plan {
 // taproot
 
 type tapSigOpts struct {
+	grind50  bool // valid signature whose first byte is 0x50 (the annex tag)
 	hashType byte
 	flip     int // -1 none
 	empty    bool
@@ -670,6 +671,11 @@ func makeTapSig(k *ms.Key, tx *ms.Tx, idx int, prevouts []ms.TxOut, tapscript bo
 		h = ms.Sha256([]byte("no digest for this hash type"))
 	}
 	sig := signer.SignSchnorrHash(h)
+	if o.grind50 {
+		if g, ok := signer.SignSchnorrHashGrind(h, 0x50); ok {
+			sig = g
+		}
+	}
 	if o.hashType != 0 || o.zeroByte {
 		sig = append(sig, o.hashType)
 	}
@@ -1040,6 +1046,12 @@ func genTaprootPlan(t *rapid.T, sk *skeleton, idx int, pMut int) *plan {
 			o := genTapSigOpts(t, pMut)
 			if o.note != "" {
 				p.note("%s", o.note)
+			}
+			if !withAnnex && rapid.IntRange(0, 24).Draw(t, "grind50") == 0 {
+				// a lone witness element that starts with the annex tag is a
+				// signature, not an annex
+				o.grind50 = true
+				p.note("signature-starts-with-0x50")
 			}
 			signer := tree.Tweaked
 			if mut(t, pMut/6, "untweaked") {
